@@ -4,6 +4,8 @@
    C08_history_refines), and the removal of the edge -3, the insertion of an edge 2 -> 1, and the two in sequence are covered. *)
 From Agdb Require Import Bytes DbValue Graph DbModel Search Queries Revisions GraphSim GraphSpec GraphC08 StoredDbExampleBase
   StoredDbOpsQuery StoredDbOpsLink StoredDbOpsLinkHist.
+From Agdb Require Import StoredDbRep.
+From Agdb Require HistoryAtomicProofs HistoryAtomicExamples.
 From Coq Require Import ZifyBool ZifyNat ZifyN.
 Open Scope Z_scope.
 
@@ -38,6 +40,28 @@ Proof.
   - intros x Hx. vm_compute in Hx. destruct Hx as [<-|[]]. vm_compute. reflexivity.
   - left. split; [lia|vm_compute; reflexivity].
 Qed.
+
+(* the example database is what four public queries build from the empty database — hence it satisfies HInv *)
+Definition sx_history : list HistoryAtomicProofs.hitem :=
+  [ HistoryAtomicProofs.HQuery (InsertNodes 1 (Single [(sx_key, DI64 7); (sx_name, sx_long)]) [sx_alias] (Ids []));
+    HistoryAtomicProofs.HQuery (InsertNodes 1 (Single []) [] (Ids []));
+    HistoryAtomicProofs.HQuery (InsertEdges (Ids [QId 1]) (Ids [QId 2]) (Single [(DU64 1, DVecI64 [1; 2])]) false (Ids []));
+    HistoryAtomicProofs.HQuery (InsertIndex sx_key) ].
+
+Lemma sx_reached : HistoryAtomicProofs.run_items rv_fixed db_new sx_history = sx_db.
+Proof. vm_compute. reflexivity. Qed.
+
+Lemma sx_HInv : HistoryAtomicProofs.HInv sx_db.
+Proof.
+  rewrite <- sx_reached. apply HistoryAtomicProofs.history_HInv_fixed.
+  - unfold sx_history. repeat (apply Forall_cons; [HistoryAtomicExamples.ik|]). apply Forall_nil.
+  - cbn [HistoryAtomicProofs.bounded sx_history]. repeat split; vm_compute; discriminate.
+Qed.
+
+Theorem sx_link_sample_hinv :
+  HistoryAtomicProofs.HInv sx_db /\ stored_db_w sx_g 1 sx_db sx_wit /\
+  so_covered_all rv_fixed sx_db [CqInsertEdge 2 1; CqRemove (-3)].
+Proof. split; [exact sx_HInv|]. split; [exact sx_stored|exact sx_covered_all]. Qed.
 
 Theorem sx_link_sample :
   wf (gr sx_db) /\ so_covered sx_db (CqRemove (-3)) /\ so_covered sx_db (CqInsertEdge 2 1) /\
